@@ -66,11 +66,17 @@ MARK = r"dev=markup:\w+>ContentBlock\[LeftBracket\^(List|Enum|Term)Marker\]:(bc_
 kf("K5-C01", "P15 comment-before-list-marker", "C01", r"^C01\|tree\|(.*&)?" + MARK, "#g[/* c1\n * d\n */- foo\n    bar\n]", P15, "tree")
 kf("K5-C03", "P15 comment-before-list-marker", "C03", r"^C03\|not-idempotent\|(.*&)?" + MARK, "#g[/* c1\n * d\n */- foo\n    bar\n]", P15, "not-idempotent")
 
+kf("K5-C13", "P15 comment-before-list-marker", "C13", r"^C13\|splice-changes-tree\|(.*&)?" + MARK, "#g[/* c1\n * d\n */- foo\n    bar\n]", P15 + " (range formatting of the call or the document)", "splice-changes-tree")
+kf("K8l-C13", "directive in front of a list item after '['", "C13", r"^C13\|splice-changes-tree\|(.*&)?dev=markup:\w+>ContentBlock\[LeftBracket\^(List|Enum|Term)Marker\]:(off_lc|off_reason)[|&]", "#g[// @typstyle off\n- foo\n  - bar\n]", "a line-comment directive directly after '[' protects the list item that follows; the item's text is copied with its source indentation while the block around it is re-indented, so its continuation lines and children change their nesting", "splice-changes-tree")
+kf("K15-C13", "chain in parentheses in front of an intra-word '*'", "C13", r"^C13\|splice-has-syntax-errors\|extra=damage:replace:\*@\d+:", "#a.f(b).g*c)", "a method chain embedded in markup that is followed directly by '*' and a word character: when the chain breaks it is wrapped in parentheses, and after ')' the '*' opens strong emphasis instead of being text", "splice-has-syntax-errors")
+
 # --------------------------------------------------------------------------- K6: list items in a content block whose bracket cannot be broken
 D5 = "a list/enum/term item that starts right after '[' inside a context where the bracket cannot be moved to its own line (strong/emph body, a line of text, a heading): the following lines are indented by one unit relative to the enclosing indentation, not relative to the marker, so with tab width 4 (or deeper nesting) they change their nesting"
 kf("K6-C08", "D5 list-after-bracket-unbreakable", "C08", r"^C08\|tokens-moved-between-markup-nodes\|", "*#[- foo\n\n  bar\n]*", D5, "tokens-moved-between-markup-nodes")
+kf("K6-C02", "D5 list-after-bracket-unbreakable", "C02", r"^C02\|rendering-differs\|spine=(mixed|strong|heading|item)/content\w*(@\d)?/(list|enum|term)\w*\|", PRELUDE + "foo #[- foo\n- bar] bar", D5, "rendering-differs")
+kf("K16-C02", "comment on its own line adds a space element", "C02", r"^C02\|rendering-differs\|(.*&)?dev=markup:(Array|Named|Keyed|Dict)>ContentBlock\[LeftBracket\^\w+\]:(lc|lc_sp|lc_lc|nl_lc|off_lc|off_reason)[|&]", PRELUDE + "#([//c1\nfoo],)", "a line comment directly after '[' is moved to its own line, which puts a second space element in front of the content; the difference is visible only where content is shown through repr (an array or dict item displayed as a value)", "rendering-differs")
 kf("K6b-C01", "D5 list-after-bracket-unbreakable (text line built by a production)", "C01", r"^C01\|tree\|spine=(doc|hash|item|heading|content_ml)/[^|]*/content\w*(@\d)?/(list|enum|term)\w*\|", "_#[- foo\n- bar]_", D5 + " - here the unbreakable surroundings come from a production (emph / strong body, code followed by text, a sequence on one line)", "tree")
-kf("K6-C01", "D5 list-after-bracket-unbreakable", "C01", r"^C01\|tree\|(spine=(strong|mixed|heading|item)/|(.*&)?dev=markup:\w*>(Strong|Emph|Heading|ListItem|EnumItem|TermItem|Markup|ContentBlock)\[[^\]]*(Marker|Hash|LeftBracket|RightBracket|Star|Underscore)[^\]]*\])", "*#[- foo\n\n  bar\n]*", D5, "tree")
+kf("K6-C01", "D5 list-after-bracket-unbreakable", "C01", r"^C01\|tree\|(spine=(strong|mixed|heading|item)/|(.*&)?dev=markup:\w*>(Strong|Emph|Heading|ListItem|EnumItem|TermItem|Markup|ContentBlock)\[[^\]]*(Marker|Hash|LeftBracket|RightBracket|Star|Underscore)[^\]]*\][^|]*\|at=[^|]*(list|enum|term|text_list)\w*)", "*#[- foo\n\n  bar\n]*", D5, "tree")
 
 K13 = "a lone '-' next to the closing ']' of a content block whose last element is a list item: as plain text ('-]') it becomes an empty item when the bracket is moved to its own line; as an empty item ('- ]') it becomes plain text when the blank before ']' is dropped"
 kf("K13-C02", "lone marker next to ']'", "C02", r"^C02\|rendering-differs\|(spine|dev=.*\|at)=\S*/list_nest_empty", PRELUDE + "#{\n  [- foo\n    -]\n}", K13, "rendering-differs")
@@ -154,6 +160,9 @@ FIXED = [
   fixed("C04", "wrap a closure body that holds a line comment in parentheses, not braces", "'#g(x => v = // c<newline>a)': the body was put between braces, where the line break after the comment ends the statement (also C01: 'return // c<newline>a' lost its value; found by the new closure-body productions)"),
   fixed("C04", "keep math argument separators apart from a backslash or a hashed expression before them", "'$vec(a \\ )$' -> '$vec(a \\)$' (escaped parenthesis), '#a ;' in a 2D row lost its blank (also C01 C09; side remark of a sub-agent; real math calls were missing from the model until then)"),
   fixed("C03", "do not print a blank for the empty parentheses of an import without items", "'{ import \"m.typ\": () }' gained two blanks, the next run removed one"),
+  fixed("C01", "keep the comma of a 2D math row apart from a backslash before it", "'$mat(x \\ , y; z)$' -> '$mat(x \\, y; z)$' (follow-up of the separator repair; thorough tier)"),
+  fixed("C04", "break the line after a line comment that ends an import without items", "'#(import \"m.typ\": // c<newline>())': the comment swallowed the closing parenthesis (follow-up; thorough tier; also C06)"),
+  fixed("C13", "keep a blank between a hashed identifier and the underscore of an attachment", "'$#x _ y$' -> '$#x_y$': the subscript became part of the identifier (found by a single-character damage under C13; also C01 C09)"),
   fixed("C01", "do not break a content block that holds nothing but block comments", "'a#[/*c*/]b' was printed with the comment on its own line: empty content became a blank (also C02 C08)"),
 ]
 
